@@ -69,7 +69,8 @@ def gen(tier, seed):
         yield 'hkdf_expand sha256 %s %s %d #hkdf' % (rng.data(32), rng.data(10), rng.rng(1, 300))
     for _ in range(30 if thorough else 8):
         yield 'scrypt %s %s %d %d %d %d #scrypt' % (rng.data(8), rng.data(8), rng.rng(1, 6), rng.rng(1, 8), rng.rng(1, 3), rng.rng(1, 130))
-        yield 'argon2 %s 0x13 %d %d %d %d %s %s - - at #argon2' % (rng.choice(['d', 'i', 'id']), rng.rng(1, 3), rng.rng(8, 80), rng.rng(1, 3), rng.choice([16, 32, 64, 100]), rng.data(12), rng.data(16))
+        lanes = rng.rng(1, 3)      # memory below 8 blocks per lane is silently raised by the crate (documented, outside the claim): never generated
+        yield 'argon2 %s 0x13 %d %d %d %d %s %s - - at #argon2' % (rng.choice(['d', 'i', 'id']), rng.rng(1, 3), rng.rng(8 * lanes, 80), lanes, rng.choice([16, 32, 64, 100]), rng.data(12), rng.data(16))
     # ChaCha: public contexts (SSE2 engine) and the portable engine on identical inputs
     for rounds in (8, 12, 20):
         for kl in (16, 32):
